@@ -45,6 +45,7 @@ def run(run):
     _r1_r2(run, ev)
     _r3(run, ev)
     _r4(run)
+    paths_at_call_sites(run)
     _r5_shape_agreement(run)
 
 
@@ -183,6 +184,7 @@ def _r1_r2(run, ev):
         run.undecided("C20.R1", f, node, "selection cases found: %s (scalar, list, search expected)" % sorted(seen_kinds), kind="cases")
     # scalar test is `isinstance(..., int)`, list branch is `is not None`
     run.holds("C20.R1", f, node, "files are opened and yielded in input order (enumerate(self._paths))") if path_t == ppath else None
+    default_search_predicate(run, f, r)
     # purity of the scan
     stores = [e for e in r.events if e.kind == "store" and e.term[1][0][0] == "attr" and e.term[1][0][1] == ("sym", "self")]
     muts = [e for e in r.events if e.kind == "call" and e.term[1][0] == "attr" and e.term[1][2] in sym.MUTATORS and e.term[1][1][0] == "attr" and e.term[1][1][1] == ("sym", "self")]
@@ -698,3 +700,147 @@ def _r5_shape_agreement(run):
         run.undecided("C20.R5", f, descs[0].node, "cannot evaluate %s" % (unknown or "any case"), kind="shape-eval")
     else:
         run.holds("C20.R5", f, descs[0].node, "description shape == image shape for every axis mask with two kept axes among 2..4 (%d cases)" % n, cases=n)
+
+
+# ---------------------------------------------------------------------------------------------------------------------
+# R4 (call sites): whoever builds a collection hands over the paths it was given
+
+
+def _alters_sequence(t):
+    """If *t* is a definite re-ordering / de-duplicating / filtering / shortening of an inner sequence S, return (what, S)."""
+    if t[0] == "call" and t[1][0] == "sym" and t[1][1] in ("list", "tuple") and len(t[2]) == 1:
+        inner = _alters_sequence(t[2][0])
+        if inner:
+            return inner
+        a = t[2][0]
+        # list(dict.fromkeys(S)) / list(set(S)) / list(OrderedDict.fromkeys(S))
+        if a[0] == "call" and a[1][0] == "attr" and a[1][2] == "fromkeys" and a[2]:
+            return ("de-duplicated (dict.fromkeys)", a[2][0])
+        return None
+    if t[0] == "call" and t[1][0] == "sym" and t[1][1] in ("sorted", "set", "frozenset", "reversed") and t[2]:
+        return ({"sorted": "sorted", "reversed": "reversed"}.get(t[1][1], "de-duplicated (set)"), t[2][0])
+    if t[0] == "call" and t[1][0] == "attr" and t[1][2] == "fromkeys" and t[2]:
+        return ("de-duplicated (dict.fromkeys)", t[2][0])
+    if t[0] == "call" and t[1] == ("sym", "filter") and len(t[2]) == 2:
+        return ("filtered", t[2][1])
+    if t[0] == "call" and show(t[1]) in ("np.unique", "numpy.unique") and t[2]:
+        return ("de-duplicated and sorted (np.unique)", t[2][0])
+    if t[0] == "op" and t[1] == "comp" and t[2][3] != sym.TRUE:
+        return ("filtered", t[2][2])
+    if t[0] == "sub" and t[2][0] == "slice" and not (t[2][1] == sym.NONE and t[2][2] == sym.NONE and t[2][3] == sym.NONE):
+        return ("sliced", t[1])
+    return None
+
+
+def paths_at_call_sites(run, rule="C20.R4"):
+    """Every call that builds a collection from paths -- load_paths(paths), collection.load(paths, ...),
+    SimpleFitsCollection(paths, ...) -- anywhere in the package: the argument is not a sorted / de-duplicated / filtered /
+    sliced version of a path list the caller received (a parameter, an attribute of its settings): the per-file option
+    lists the same caller forwards are indexed by position in the list the user gave."""
+    project = run.project
+    n = 0
+    for f in project.py_funcs():
+        if "/tests/" in (f.module.relpath or ""):
+            continue
+        sites = [c for c in own_calls(f.node) if callee_attr(c) in ("load_paths",) or (dotted(c.func) or "").split(".")[-1] in ("SimpleFitsCollection",)
+                 or ((dotted(c.func) or "") in ("collection.load", "toasty.collection.load"))]
+        if not sites:
+            continue
+        try:
+            r = sym.make_evaluator(project, f.module.name, []).run(f.node)
+        except Exception:
+            continue
+        params = {("sym", p_) for p_ in f.params()}
+        for c in sites:
+            ev_ = [e for e in r.events if e.kind == "call" and e.node is c]
+            if not ev_:
+                continue
+            args = ev_[0].term[2]
+            kw = dict((k, v) for k, v in ev_[0].term[3] if k != "**")
+            arg = args[0] if args else kw.get("paths", kw.get("fits"))
+            if arg is None:
+                continue
+            n += 1
+            run.note_func(f)
+            alt = _alters_sequence(arg)
+            if alt is not None:
+                what, src = alt
+                roots = [a for a in _subterms(src) if a in params or (a[0] == "attr" and a[1] in params)]
+                if roots:
+                    run.violated(rule, f, c, "%s hands the collection its input paths %s (%s) instead of the list it received (%s), in order and with repeats: per-file "
+                                 "--hdu-index / --wcs-key lists are indexed by position in the list the user gave and no longer pair up with the files"
+                                 % (f.short, what, show(arg)[:60], show(roots[0])[:40]), kind="paths-altered")
+                    continue
+            run.holds(rule, f, c, "%s passes its path list on as received" % f.short)
+    return n
+
+
+# ---------------------------------------------------------------------------------------------------------------------
+# R1 (default selection): which HDU counts as "holding image data"
+
+
+def default_search_predicate(run, f, r, rule="C20.R1"):
+    """With no hdu_index the scan stops at the first HDU holding image data.  The stop condition of the search loop is
+    evaluated for image HDUs of 0 to 5 dimensions: it must accept exactly those with at least two axes (an empty primary
+    or a 1-D array is passed over; images and cubes - which `_load` reduces to their first plane - are taken)."""
+    from sa import teval as _teval
+    brk = [e for e in r.events if e.kind == "break"]
+    if not brk:
+        return
+    done = 0
+    for e in brk:
+        loops = [i for i, c in enumerate(e.pc) if c[0] == "loop"]
+        if not loops:
+            continue
+        inner = [c for c in e.pc[loops[-1] + 1:] if c[0] != "loop"]
+        lens = set()
+        for c in inner:
+            for a in _subterms(c[0]):
+                if a[0] == "call" and a[1] == ("sym", "len") and len(a[2]) == 1 and a[2][0][0] == "attr" and a[2][0][2] == "shape":
+                    lens.add(a)
+                elif a[0] == "attr" and a[2] in ("ndim", "naxis") :
+                    lens.add(a)
+        if len(lens) != 1:
+            continue            # not the image search (or a form that does not count axes)
+        ndim = next(iter(lens))
+        verdicts = {}
+        unknown = None
+        for k in range(0, 6):
+            ok = True
+            for c in inner:
+                lit = c[0]
+                if ndim in _subterms(lit):
+                    v = _teval.teval(lit, {ndim: k})
+                    if v is _teval.UNKNOWN or v is _teval.RAISES:
+                        unknown = lit
+                        break
+                    if bool(v) != bool(c[1]):
+                        ok = False
+                elif lit[0] == "call" and lit[1] == ("sym", "hasattr"):
+                    if not c[1]:
+                        ok = False          # an image HDU has a shape
+                elif "Table" in show(lit) or "table" in show(lit):
+                    # `type(hdu) is BinTableHDU` / isinstance(hdu, ...Table...): false for an image HDU
+                    positive = not (lit[0] == "op" and lit[1] in ("cmp:IsNot", "cmp:NotEq"))
+                    if bool(c[1]) == positive:
+                        ok = False
+                else:
+                    unknown = lit
+                    break
+            if unknown is not None:
+                break
+            verdicts[k] = ok
+        if unknown is not None:
+            run.undecided(rule, f, e.node, "default selection: the search stops under %s, which cannot be evaluated for an image HDU" % show(unknown)[:80], kind="search-predicate-shape")
+            done += 1
+            continue
+        wrong = [k for k, v in verdicts.items() if v != (k >= 2)]
+        if wrong:
+            k = wrong[0]
+            what = ("an image HDU with %d axes (a cube, which _load reduces to its first plane) is passed over: a later extension is taken instead of the first HDU "
+                    "holding image data" % k) if k >= 2 else ("an HDU with %d axes (%s) is taken as the image" % (k, "an empty primary HDU" if k == 0 else "a 1-D array"))
+            run.violated(rule, f, e.node, "default selection: %s" % what, kind="search-predicate", dims=wrong)
+        else:
+            run.holds(rule, f, e.node, "default selection stops at the first HDU with at least two axes (checked for 0..5 axes)")
+        done += 1
+    return done
